@@ -41,7 +41,7 @@ type Op struct {
 }
 
 type Scenario struct {
-	Mode    string    `json:"mode"` // "stress" (this file) | "sched" (sched.go)
+	Mode    string    `json:"mode"` // "stress" (this file) | "sched" (sched.go) | "race" (race.go)
 	Class   string    `json:"class"`
 	Res     string    `json:"res"` // value | collection
 	Initial []string  `json:"initial,omitempty"`
@@ -49,6 +49,7 @@ type Scenario struct {
 	Writers [][]Op    `json:"writers"`
 	BoundMs int       `json:"boundMs"`
 	Sched   *SchedCase `json:"sched,omitempty"`
+	Race    *RaceCase  `json:"race,omitempty"`
 	// LingerAt: every goroutine reaching this yield point sleeps LingerUs there (widens a window)
 	LingerAt string `json:"lingerAt,omitempty"`
 	LingerUs int    `json:"lingerUs,omitempty"`
